@@ -180,7 +180,7 @@ func TestVerifC05Dispatch(t *testing.T) {
 		done := make(chan c05DispObs, 1)
 		n := node
 		go func() { done <- c05Serve(n, in.Data) }()
-		wd := time.NewTimer(90 * time.Second)
+		wd := time.NewTimer(50 * time.Second)
 		var o c05DispObs
 		select {
 		case o = <-done:
